@@ -154,6 +154,24 @@ Definition serve (v : variant) (st : pstate) : pstate :=
                  (p_queue st) (p_ci st))
       [].
 
+(* the rebuilder serving the queue while the last records of some chunks are still in the chunk writer's buffer
+   (Service.Write has returned and onWriteCIndex has accounted for them, the flush has not happened yet):
+   rebuildIndexInt scans only the readable prefix, `seen` gives its length per chunk (a chunk not listed is
+   scanned completely). serve = serve_seen with nothing listed (proofs/SelectorP.v serve_seen_nil). *)
+Fixpoint seen_of (seen : list (Z * Z)) (cid : Z) (dflt : nat) : nat :=
+  match seen with
+  | [] => dflt
+  | (c, n) :: tl => if c =? cid then Z.to_nat n else seen_of tl cid dflt
+  end.
+Definition serve_seen (v : variant) (st : pstate) (seen : list (Z * Z)) : pstate :=
+  mkp (p_chunks st)
+      (fold_left (fun ci cid => if has_chunk (p_chunks st) cid
+                                then let d := chunk_data (p_chunks st) cid in
+                                     ci_rebuild (fix_zero v) ci cid (firstn (seen_of seen cid (length d)) d)
+                                else ci)
+                 (p_queue st) (p_ci st))
+      [].
+
 Definition step (v : variant) (st : pstate) (o : op) : pstate :=
   match o with
   | HBatch segs => run_segs v st iw_init segs
